@@ -86,7 +86,14 @@ def main():
         except Exception:  # noqa
             results = {}
     seeds = []
-    for prop in sorted(os.listdir(root)):
+    committed = os.path.exists(os.path.join(root, os.listdir(root)[0], "meta.json")) if os.listdir(root) else False
+    if committed:
+        # the committed layout /verif/seeded/<PROP>-<X>/{patch.diff, demo/, meta.json}
+        for name in sorted(os.listdir(root)):
+            d = os.path.join(root, name)
+            if os.path.exists(os.path.join(d, "meta.json")):
+                seeds.append((name.replace("-", "/", 1), json.load(open(os.path.join(d, "meta.json")))["property"], d))
+    for prop in ([] if committed else sorted(os.listdir(root))):
         pd = os.path.join(root, prop)
         if not os.path.isdir(pd):
             continue
@@ -105,7 +112,12 @@ def main():
         for f in files:
             p = os.path.join(repo, f)
             backup[f] = open(p, "rb").read() if os.path.exists(p) else None
-        demos, place, cmd = demo_info(d)
+        if committed:
+            meta = json.load(open(os.path.join(d, "meta.json")))
+            place, cmd = meta["demonstration"]["files"] or {}, meta["demonstration"]["command"]
+            demos = list(place)
+        else:
+            demos, place, cmd = demo_info(d)
         rec.update({"patched_files": files, "demo_files": place, "demo_cmd": cmd})
 
         def restore():
@@ -121,7 +133,7 @@ def main():
             for f, rel in place.items():
                 dst = os.path.join(repo, rel)
                 os.makedirs(os.path.dirname(dst), exist_ok=True)
-                shutil.copy(os.path.join(d, f), dst)
+                shutil.copy(os.path.join(d, "demo", f) if committed else os.path.join(d, f), dst)
 
         def remove_demo():
             for f, rel in place.items():
